@@ -4,21 +4,29 @@
 (* type and the payload unchanged; RTP is unreliable, so a packet may be lost,  *)
 (* but nothing that was not written may arrive.                                 *)
 (* The machine: Write(seq) adds a packet to the network, Lose drops one,        *)
-(* Arrive delivers one (in any order).  The vector space is what is replayed.   *)
+(* Arrive delivers one (in any order); with RTX negotiated the receiver may ask *)
+(* for a packet again (NACK) and Retransmit puts a second copy on the repair    *)
+(* stream, which must come out of the same TrackRemote as the same packet.      *)
+(* A packet's RTP header has one of four forms (Hdr): plain, with contributing  *)
+(* sources, with a header extension, with both; the form must not matter.       *)
+(* The vector space is what is replayed.                                        *)
 EXTENDS Naturals, Sequences, FiniteSets, TLC, Json
 
 CONSTANT NPkts
-VARIABLES vec, written, net, arrived
-vars == <<vec, written, net, arrived>>
+VARIABLES vec, written, net, arrived, resent
+vars == <<vec, written, net, arrived, resent>>
 
-Codecs == {"opus", "vp8", "vp9", "h264"}
+Codecs == {"opus", "vp8", "vp9", "vp9p2", "h264", "h264pm0", "h264high", "av1"}
+Hdr(s) == <<"plain", "csrc", "ext", "csrc+ext">>[(s % 4) + 1]
 Space == [codec : Codecs, rtx : BOOLEAN, bundle : {"single", "audio+video+data"}, offerer : {"sender", "receiver"}]
 Init == /\ vec \in {v \in Space : (v.codec = "opus" => ~v.rtx)}
-        /\ written = {} /\ net = {} /\ arrived = {}
-Write(s)  == s \notin written /\ written' = written \cup {s} /\ net' = net \cup {s} /\ UNCHANGED <<vec, arrived>>
-Lose(s)   == s \in net /\ net' = net \ {s} /\ UNCHANGED <<vec, written, arrived>>
-Arrive(s) == s \in net /\ net' = net \ {s} /\ arrived' = arrived \cup {s} /\ UNCHANGED <<vec, written>>
-Next == \E s \in 1..NPkts : Write(s) \/ Lose(s) \/ Arrive(s)
+        /\ written = {} /\ net = {} /\ arrived = {} /\ resent = {}
+Write(s)  == s \notin written /\ written' = written \cup {s} /\ net' = net \cup {s} /\ UNCHANGED <<vec, arrived, resent>>
+Lose(s)   == s \in net /\ net' = net \ {s} /\ UNCHANGED <<vec, written, arrived, resent>>
+Arrive(s) == s \in net /\ net' = net \ {s} /\ arrived' = arrived \cup {s} /\ UNCHANGED <<vec, written, resent>>
+Retransmit(s) == vec.rtx /\ s \in written /\ s \notin resent /\ resent' = resent \cup {s} /\ net' = net \cup {s}
+                 /\ UNCHANGED <<vec, written, arrived>>
+Next == \E s \in 1..NPkts : Write(s) \/ Lose(s) \/ Arrive(s) \/ Retransmit(s)
 
 OnlyWhatWasWritten == arrived \subseteq written
 EmitVec == (written = {}) => PrintT(<<"VERIF_VEC", ToJson(vec)>>)
